@@ -1,11 +1,16 @@
 """C08 — ExponentiatedGradient meets the saddle-point guarantees certified by best_gap_."""
+import hashlib
+import json
 import logging
 import math
+import os
+import random
 from fractions import Fraction as F
 
 import numpy as np
 import pandas as pd
 
+from .. import egreplay
 from .. import proto
 from .. import redoracle as ro
 from ..core import Check, Problem, register
@@ -30,7 +35,41 @@ PINNED = {
     "L_high": "if max_constraint > 0:\n    L_high += self.B * max_constraint",
     "improves": "h_value < best_value - _PRECISION",
 }
+PINNED_LOOP = json.loads(r"""{"init": {"theta": "pd.Series(0, lagrangian.constraints.index)", "Qsum": "pd.Series(dtype='float64')", "gaps_EG": "[]", "gaps": "[]", "Qs": "[]", "last_regret_checked": "_REGRET_CHECK_START_T", "last_gap": "np.inf", "self.lambda_vecs_EG_": "pd.DataFrame()", "self.lambda_vecs_LP_": "pd.DataFrame()"}, "lambda_vec": "B * np.exp(theta) / (1 + np.exp(theta).sum())", "lambda_EG": "self.lambda_vecs_EG_.mean(axis=1)", "Qsum": ["Qsum.at[h_idx] = 0.0", "Qsum[h_idx] += 1.0"], "Q_EG": "Qsum / Qsum.sum()", "eta": "self.eta0 / B", "skipLP": "t == 0 or not self.run_linprog_step", "regretDue": "t >= last_regret_checked * _REGRET_CHECK_INCREASE_T", "shrinkDue": "best_gap > last_gap * _SHRINK_REGRET", "shrink": "eta *= _SHRINK_ETA", "theta": "theta += eta * (gamma - self.constraints.bound())", "last_iter": "len(Qs) - 1", "evalBreak": "result.gap() > nu + _PRECISION", "_eval": ["error = self.errors[Q.index].dot(Q)", "gamma = self.gammas[Q.index].dot(Q)", "if self.opt_lambda:\n    lambda_vec = self.constraints.project_lambda(lambda_vec)"], "h_value": "h_error + h_gamma.dot(lambda_vec)", "best_h": ["values = self.errors + self.gammas.transpose().dot(lambda_vec)", "best_idx = values.idxmin()", "best_value = values[best_idx]", "best_idx = -1", "best_value = np.inf"]}""")
+PINNED_LP = json.loads(r"""{"c": "np.concatenate((self.errors, [self.B]))", "A_ub": "np.concatenate((self.gammas.sub(self.constraints.bound(), axis=0), -np.ones((n_constraints, 1))), axis=1)", "b_ub": "np.zeros(n_constraints)", "A_eq": "np.concatenate((np.ones((1, n_hs)), np.zeros((1, 1))), axis=1)", "b_eq": "np.ones(1)", "dual_c": "np.concatenate((b_ub, -b_eq))", "dual_A_ub": "np.concatenate((-A_ub.transpose(), A_eq.transpose()), axis=1)", "dual_bounds": "[(None, None) if i == n_constraints else (0, None) for i in range(n_constraints + 1)]", "cache": "self.last_linprog_n_hs == n_hs"}""")
+PINNED_SHA = {"EGGen.lean": "2ac31df88449c15f2f3119914e841d4c389aeff5",
+              "EGLoopGen.lean": "f223b9297f2337250166b7cbcbb00b6841e2718e",
+              "LinProgGen.lean": "fd41ac5a5f6dad60aee18a7c7aae8b5cb7bed893"}
 _LIFTED = {}
+_RP = {}
+
+
+def loop_replay(case, o):
+    """exact replay of the main loop on the recorded answers (cached per implementation output object)"""
+    ent = _RP.get(id(o))
+    if ent is not None and ent[0] is o:
+        return ent[1]
+    P, H, errs, gams = table_of(case)
+    try:
+        rp = egreplay.run_replay(case, o, P, H, errs, gams)
+    except (ValueError, IndexError, KeyError, ZeroDivisionError) as e:      # a trace that is not of the recorded shape
+        rp = None
+        o["_replay_error"] = repr(e)[:200]
+    if len(_RP) > 512:
+        _RP.clear()
+    _RP[id(o)] = (o, rp)
+    return rp
+
+
+def loop_observables(case, o, P, H, errs):
+    idx = [tuple(k) for k in o["lam_index"]]
+    perm = [idx.index(k) for k in P.index]
+    o2 = dict(o)
+    o2["lam_cols"] = [[c[j] for j in perm] for c in o["lam_cols_raw"]]
+    o2["lam_lp_cols"] = {t: [c[j] for j in perm] for t, c in o["lam_lp_raw"].items()}
+    o2["weights_by_idx"] = o["weights"]
+    o2["stored_errs"] = [float(errs[H.index(tuple(lab))]) for lab in o["predictors"]]
+    return o2
 
 
 def lifted_changes():
@@ -38,8 +77,22 @@ def lifted_changes():
     if "v" not in _LIFTED:
         from .. import core, translate
         try:
-            meta = translate.run(core.REPO).get("EGGen.lean", {})
-            _LIFTED["v"] = sorted(k for k in PINNED if meta.get(k) != PINNED[k])
+            info = translate.run(core.REPO)
+            meta = info.get("EGGen.lean", {})
+            ch = sorted(k for k in PINNED if meta.get(k) != PINNED[k])
+            for fn, pinned in (("EGLoopGen.lean", PINNED_LOOP), ("LinProgGen.lean", PINNED_LP)):
+                m = info.get(fn, {})
+                ch += sorted(f"{fn}:{k}" for k in pinned if json.loads(json.dumps(m.get(k))) != pinned[k])
+            # anything else that changed the generated text (e.g. the multiplier list of eval_gap)
+            for fn, sha in PINNED_SHA.items():
+                try:
+                    with open(os.path.join(translate.GEN_DIR, fn), "rb") as f:
+                        cur = hashlib.sha1(f.read()).hexdigest()
+                except OSError:
+                    cur = None
+                if cur != sha and not any(c.startswith(fn + ":") for c in ch):
+                    ch.append(f"{fn}:generated text")
+            _LIFTED["v"] = ch
         except translate.Untranslatable as e:
             _LIFTED["v"] = ["untranslatable: " + str(e)[:120]]
     return _LIFTED["v"]
@@ -95,39 +148,62 @@ def table_of(case):
 @register
 class CHECK(Check):
     pid = "C08"
-    technique = ("Lean 4 theorems over the Saddle model (Lagrangian, L_low, L_high, gap, project_lambda, best-iterate "
-                 "selection; closed expressions lifted from the source) + compiled-driver recomputation of the TRUE duality "
-                 "gap of every fitted ExponentiatedGradient over the enumerated hypothesis class + exact LP optimum")
-    level_text = ("Theorems (any finite class, all rational inputs): gap <= g, lambda >= 0, Q' feasible => err(Q) <= err(Q') + 2g; "
-                  "violation_j <= (1+2g)/B; L_high is the multiplier player's best response; a gap computed from any candidate "
-                  "set containing a true best response is >= (and, inside the class, =) the true gap; project_lambda keeps "
-                  "lambda.gamma, non-negativity and the L1 bound; best_iter_ is the last iterate within _PRECISION of the "
-                  "minimum and best_gap_ < nu whenever the loop leaves early. Tie: expressions/constants lifted from the "
-                  "Python source into Generated/EGGen.lean; every generated fit is exported (hypothesis table in exact "
-                  "Fractions, weights_, recorded multipliers) to the compiled model, which recomputes the true gap; the two "
-                  "guarantees are checked against an exact simplex optimum (cross-checked with scipy).")
+    technique = ("Lean 4 theorems over (i) the Saddle model (Lagrangian, L_low, L_high, gap, project_lambda, best-iterate selection), "
+                 "(ii) the ExponentiatedGradient MAIN LOOP as a state machine (Model/EGLoop.lean: multipliers, running mean, best_h "
+                 "cache, eval_gap's [1,2,5,10] loop with its break, LP cache, EG-vs-LP choice, break rule, regret check / eta shrink, "
+                 "theta update, returned iterate) and (iii) the two LPs of solve_linprog (Model/LinProg.lean), all written over "
+                 "expressions lifted from the Python source on every run (Generated/EGGen, EGLoopGen, LinProgGen); correspondence = "
+                 "every generated fit is recorded (base-learner answers, DummyClassifier shortcuts, every scipy.linprog call with its "
+                 "arguments and solution) and re-run by the compiled state machine and by an independent exact-Fraction replay; "
+                 "+ compiled-driver recomputation of the TRUE duality gap over the enumerated class + exact LP optimum")
+    level_text = ("Theorems (any finite class, all rational inputs, every run length, ANY oracle answers): gap <= g, lambda >= 0, Q' "
+                  "feasible => err(Q) <= err(Q') + 2g; violation_j <= (1+2g)/B; L_high is the multiplier player's best response; "
+                  "every lambda_t and every running mean lambda_EG is >= 0 with L1 norm < B (from positivity of exp only); Q_EG and "
+                  "weights_ are probability vectors; eta = eta0/B * 0.8^k, non-increasing; at most max_iter iterations, "
+                  "len(gaps) = len(Qs) = t, best_iter_ <= last_iter_, early stop => best_gap_ < nu; best_h's store is append-only, "
+                  "the returned index is a stored argmin within _PRECISION of the oracle's answer; eval_gap's reported gap is <= the "
+                  "true gap for ANY class-member oracle and >= true gap - _PRECISION when the ONE call at mul = 1 is exact (slack "
+                  "shown necessary); the two guarantees for the OUTPUT of the loop; solve_linprog's primal feasibility = "
+                  "distribution + slack >= max violation, objective = err + B t (= L_high at the optimal slack), dual feasibility = "
+                  "(lambda >= 0, |lambda|_1 <= B, mu <= L(h_i, lambda) for all stored i), weak duality for the generated pair, "
+                  "gap 0 => both optimal. Tie: expressions/constants/matrix constructions lifted from the source; every fit replayed "
+                  "(lambda_vecs_EG_ column by column, lambda_vecs_LP_, best_iter_, last_iter_, best_gap_, weights_, n_oracle_calls_, "
+                  "stored classifiers, LP matrices entry by entry, LP solutions' feasibility residuals/objectives/duality certificate); "
+                  "the two guarantees are checked against an exact simplex optimum (cross-checked with scipy).")
     design_ref = "DESIGN.md section 4, C08"
     quick_cases = 240
     thorough_cases = 2000
-    quick_budget_s = 110
+    quick_budget_s = 130
     thorough_budget_s = 1300
     rule = ("binary data sets of 6..16 rows, one feature with 2..5 distinct values (hypothesis class = all 2^k labelings or the "
             "2k threshold labelings, enumerated), 2..3 groups, DP/TPR/FPR/EO/ERP x {difference bound in {0,1/100,1/20,1/10,1/4}, "
             "ratio bound in {1/2,4/5,1} with the same slacks}, eps in {1/4,1/10,1/20,1/50,1/100}, max_iter 1..50, nu None or "
             "given, eta0 in {1/2,1,2,4}, run_linprog_step on/off, DataFrame/ndarray/list containers; a fresh Moment per fit; "
             "distinct = distinct case; non-trivial = more than one predictor or positive gap or early stop")
-    explanation = ("theorems over Model/Saddle.lean + Generated/EGGen.lean; the true gap of (weights_, recorded multiplier) is "
-                   "recomputed exactly by the driver for the EG-average and the LP multiplier of the returned iteration "
-                   "(which of the two was used is not observable through the public attributes: the certificate clause is "
-                   "checked against the smaller of the two true gaps, and best_gap_ must coincide with one of them)")
-    trusted = ("scipy.optimize.linprog (HiGHS) inside solve_linprog; tolerance 1e-7 (relative to max(1, gap))",
-               "harness/learners.py ExactLearner is the exact cost-sensitive learner the property is conditional on",
+    explanation = ("theorems over Model/Saddle.lean, Model/EGLoop.lean, Model/LinProg.lean + Generated/EGGen, EGLoopGen, LinProgGen; the "
+                   "true gap of (weights_, recorded multiplier) is recomputed exactly by the driver for the EG-average and the LP "
+                   "multiplier of the returned iteration; the loop replay additionally determines WHICH of the two was used "
+                   "(evidence tag loop:returned=EG|LP-iterate).  Loop-level comparison tolerance: 1e-9*max(1,B) on multipliers and "
+                   "gaps, 1e-9 on weights, 1e-12 on LP matrix entries, 1e-7*max(1,B) on LP residuals / primal-dual objective equality.  "
+                   "A branch decision of the float implementation whose two sides differ by < 1e-11 (relative) in exact arithmetic "
+                   "(idxmin ties between stored classifiers at uniform multipliers, gap_EG = gap_LP = 0, ...) may legitimately go the "
+                   "other way: such runs are tagged loop:near-tie and a loop-level divergence there is not reported")
+    trusted = ("scipy.optimize.linprog (HiGHS) inside solve_linprog: its answers are inputs (Oracles.lp) of the loop model; their "
+               "feasibility and optimality are re-checked per call through the model's residuals and the weak-duality certificate; "
+               "tolerance 1e-7 (relative to max(1, gap))",
+               "np.exp: a parameter of the loop model (only positivity is used by the theorems); the driver receives math.exp of the "
+               "float nearest to each exact theta as an exact rational",
+               "harness/learners.py ExactLearner is the exact cost-sensitive learner the property is conditional on; its answers "
+               "(and sklearn DummyClassifier's) are the Oracles.h inputs of the loop model",
+               "harness/egreplay.py: recording wrappers around DummyClassifier.fit and scipy.optimize.linprog (active only while "
+               "fit runs, no source hook) and the exact-Fraction replay that supplies the exp table",
                "harness/redoracle.py: exact two-phase simplex (Bland) for the constrained optimum, cross-checked with scipy")
     assumptions = ("both labels and at least two groups occur; both constant classifiers belong to the class, so the "
                    "constrained problem is feasible", "objective=None (ErrorRate with unit costs), so errors lie in [0,1]")
 
     # ---------------------------------------------------------------- generation
     def generate(self, rng, tier):
+        n_yield = 0
         while True:
             n = rng.choice([6, 7, 8, 8, 9, 10, 10, 12, 14, 16])
             k = rng.choice([2, 3, 3, 4, 4, 5])
@@ -153,7 +229,8 @@ class CHECK(Check):
             moment = rng.choice(["DP", "DP", "TPR", "FPR", "EO", "EO", "ERP"])
             ratio = rng.choice([None, None, None, "1/2", "4/5", "1"])
             kind = "all" if k <= 4 or rng.random() < 0.5 else "threshold"
-            yield {"x": x, "y": y, "g": g, "moment": moment, "ratio": ratio,
+            n_yield += 1
+            case = {"x": x, "y": y, "g": g, "moment": moment, "ratio": ratio,
                    "bound": rng.choice(["0", "1/100", "1/100", "1/20", "1/10", "1/4"]),
                    "eps": rng.choice(["1/4", "1/10", "1/20", "1/50", "1/100", "1/100"]),
                    "max_iter": rng.choice([1, 2, 3, 5, 6, 7, 8, 10, 15, 20, 30, 50, 50]),
@@ -162,6 +239,13 @@ class CHECK(Check):
                    "linprog": rng.random() < 0.6, "kind": kind if rng.random() < 0.8 else "threshold",
                    "container": rng.choice(["df", "df", "np", "list"]),
                    "sel": self._gen_sel(rng)}
+            yield case
+            if n_yield % 8 == 0:
+                # "long run" twin of every 8th case (derived without touching the rng stream): no early break, so the regret
+                # checks at t = 8, 13, 21, 34 and the eta shrink are reached, the LP cache is hit, classifiers accumulate
+                r2 = random.Random(json.dumps(case, sort_keys=True))
+                yield dict(case, max_iter=r2.choice([14, 22, 35]), nu="1/100000", eps=r2.choice(["1/50", "1/100"]),
+                           bound=r2.choice(["0", "1/100"]), linprog=r2.random() < 0.5)
 
     @staticmethod
     def _gen_sel(rng):
@@ -213,11 +297,13 @@ class CHECK(Check):
         from sklearn.dummy import DummyClassifier
         X, y, sf = containers(case)
         eg = red.ExponentiatedGradient(
-            ExactLearner(case["kind"]), mk_moment(case), eps=float(F(case["eps"])), max_iter=case["max_iter"],
+            egreplay.TraceLearner(case["kind"]), mk_moment(case), eps=float(F(case["eps"])), max_iter=case["max_iter"],
             nu=None if case["nu"] is None else float(F(case["nu"])), eta0=float(F(case["eta0"])),
             run_linprog_step=case["linprog"])
         try:
-            ret = eg.fit(X, y, sensitive_features=sf)
+            with egreplay.recording() as events:
+                ret = eg.fit(X, y, sensitive_features=sf)
+                trace = [[e[0], list(e[1]) if e[0] == "h" else e[1]] for e in events]
         except ValueError as e:
             # diagnose the crash site (only to recognise finding F14 exactly): were all signed weights 0 in _call_oracle?
             zero = False
@@ -251,6 +337,12 @@ class CHECK(Check):
             out["lam_LP"] = [float(v) for v in eg.lambda_vecs_LP_[b].reindex(lam_eg.index).tolist()]
         else:
             out["lam_LP"] = None
+        # observables of the main loop (C08 extension): every multiplier column, the LP multipliers, the external-call trace
+        out["trace"] = trace
+        out["lam_cols_raw"] = [[float(v) for v in eg.lambda_vecs_EG_[t].reindex(lam_eg.index).tolist()]
+                               for t in eg.lambda_vecs_EG_.columns]
+        out["lam_lp_raw"] = {str(int(t)): [float(v) for v in eg.lambda_vecs_LP_[t].reindex(lam_eg.index).tolist()]
+                             for t in eg.lambda_vecs_LP_.columns}
         pmf = np.asarray(eg._pmf_predict(Xt))
         out["pmf1"] = [float(v) for v in pmf[:, 1]]
         out["pmf_rows_sum"] = [float(v) for v in pmf.sum(axis=1)]
@@ -312,6 +404,11 @@ class CHECK(Check):
         if case.get("sel"):
             gaps = [F(v) for v in case["sel"]["gaps"]]
             ls.append(f"saddle.select {proto.lst(gaps)} {proto.rat(F(case['sel']['nu']))} {len(gaps)}")
+        rp = loop_replay(case, o) if "trace" in o else None
+        if rp is not None:
+            if not rp.stuck:
+                ls += egreplay.lp_lines(rp)              # 2 lines per selected LP solve, just before ...
+            ls.append(egreplay.loop_line(case, rp))     # ... the loop line, always the LAST line of the case
         return ls
 
     @staticmethod
@@ -410,6 +507,56 @@ class CHECK(Check):
         if any(abs(a - b_) > 1e-9 for a, b_ in zip(mix, o["pmf1"])) or any(abs(s - 1) > 1e-9 for s in o["pmf_rows_sum"]):
             probs.append(Problem("property", f"_pmf_predict {o['pmf1']} is not the weights_-mixture of predictors_ {mix}",
                                  "C08.pmf"))
+        # -- automatic nu (nu=None): _ACCURACY_MUL * std(|h_0(X) - y|) / sqrt(n), h_0 = the first best response --------------
+        if case["nu"] is None and o.get("trace"):
+            ev0 = o["trace"][0]
+            vals_ = sorted(set(case["x"]))
+            lab0 = list(ev0[1]) if ev0[0] == "h" else [int(ev0[1])] * len(vals_) if ev0[0] == "d" else None
+            if lab0 is not None and len(case["y"]) > 1:
+                dd = [abs(F(lab0[vals_.index(xv)]) - yv) for xv, yv in zip(case["x"], case["y"])]
+                mean_ = sum(dd, F(0)) / len(dd)
+                var_ = sum(((d - mean_) ** 2 for d in dd), F(0)) / (len(dd) - 1)          # pandas std: ddof = 1
+                want_sq = F(1, 4) * var_ / len(dd)
+                if abs(o["nu"] ** 2 - float(want_sq)) > 1e-12 * max(1.0, float(want_sq)):
+                    probs.append(Problem("correspondence", f"automatic nu = {o['nu']} but _ACCURACY_MUL * std(|h0(X) - y|) / sqrt(n) = "
+                                                           f"{math.sqrt(float(want_sq))} for the first best response {lab0}", "C08.nu-auto"))
+        # -- the main loop: implementation vs documented algorithm on the recorded answers vs Lean state machine ------------
+        rp = loop_replay(case, o) if "trace" in o else None
+        if rp is None:
+            if "trace" in o:
+                probs.append(Problem("correspondence", f"the recorded external-call trace cannot be replayed: {o.get('_replay_error')}",
+                                     "C08.loop trace"))
+        else:
+            obs = loop_observables(case, o, P, H, errs)
+            diffs = egreplay.compare_impl(case, obs, rp)
+            if diffs and rp.fragile:
+                diffs = egreplay.compare_prefix(case, obs, rp)        # what cannot depend on the near-tie is still compared
+                o["_loop_divergence_at_near_tie"] = not diffs
+            for rel, msg in diffs[:3]:
+                probs.append(Problem("correspondence", msg, rel))
+            o.setdefault("_loop_divergence_at_near_tie", False)
+            if mo:
+                got = egreplay.parse_loop(mo[-1])
+                mo = mo[:-1]
+                want = egreplay.replay_as_model(rp)
+                bad = [k for k in want if got.get(k) != want[k]] if ("stuck" not in got and "stuck" not in want) else \
+                    ([] if ("stuck" in got and "stuck" in want) else ["stuck"])
+                if bad:
+                    msg = (f"Lean loop model != exact replay in {bad}: model "
+                           f"{ {k: str(got.get(k))[:120] for k in bad[:3]} } replay { {k: str(want.get(k))[:120] for k in bad[:3]} }")
+                    ch = lifted_changes()
+                    probs.append(Problem("correspondence", msg + f"; lifted source fragment(s) changed: {ch}",
+                                         "C08.loop (lifted) " + ",".join(ch)) if ch else Problem("harness", msg))
+                nlp = 0 if rp.stuck else 2 * len(egreplay.lp_selection(rp))
+                if nlp:
+                    lp_mo, mo = mo[-nlp:], mo[:-nlp]
+                    for kind, rel, msg in egreplay.lp_compare(rp, lp_mo)[:3]:
+                        if kind == "harness":
+                            ch = lifted_changes()
+                            probs.append(Problem("correspondence", msg + f"; lifted: {ch}", "C08.linprog (lifted)") if ch
+                                         else Problem("harness", msg))
+                        else:
+                            probs.append(Problem("correspondence", msg, rel))
         # -- model --------------------------------------------------------------------------------------------------
         if mo is not None:
             if case.get("sel") and mo:
@@ -491,4 +638,18 @@ class CHECK(Check):
                 mv = float(self._true_gap(P, errs, gams, Q, self._lams(P, o)[0][1], B)[5])
                 tags.append("constraint=violated" if mv > 1e-9 else "constraint=met")
             nontriv = len(o["predictors"]) > 1 or o["best_gap"] > 1e-9 or early
+            rp = loop_replay(case, o) if "trace" in o else None
+            if rp is not None and not rp.stuck:
+                tags.append("loop:returned=" + ("LP" if rp.from_lp[rp.best_iter] else "EG") + "-iterate")
+                tags.append("loop:LP-chosen-iterations=" + ("0" if not any(rp.from_lp) else "some" if not all(rp.from_lp[1:]) else "all"))
+                tags.append(f"loop:eta-shrinks={min(rp.shrinks, 3)}{'+' if rp.shrinks > 3 else ''}")
+                tags.append(f"loop:regret-checks={rp.checks}")
+                tags.append("loop:lp-cache-hit" if rp.cache_hits else "loop:lp-cache-miss-only")
+                tags.append("loop:stored-classifiers=" + ("1" if len(rp.hs) == 1 else "2-3" if len(rp.hs) <= 3 else "4+"))
+                tags.append("loop:oracle-answers-not-stored=" + ("0" if rp.calls == len(rp.hs) else "some"))
+                tags.append("loop:" + ("near-tie:" + "|".join(rp.fragile) if rp.fragile else "no-near-tie"))
+                if o.get("_loop_divergence_at_near_tie"):
+                    tags.append("loop:divergence-at-near-tie(not compared)")
+                tags.append("loop:" + ("break" if rp.done else "max_iter"))
+                tags.append("linprog:solves=" + ("0" if not rp.lp_calls else "1-3" if rp.lp_calls <= 3 else "4+"))
         return (repr(sorted((k, str(v)) for k, v in case.items())), nontriv, tags)
